@@ -106,12 +106,14 @@ double Db::getLocVariable(const ELoc& loctype, int iech, int item) const
   T_bad++;
   return TEST;
 }
+#ifndef VF_KS_OWN_SETARRAY // a harness that defines this macro supplies its own Db::setArray (C04/xvalid.cpp: results go to the input Db)
 void Db::setArray(int iech, int iuid, double value)
 {
   if (this != DBOUT || iech != KS->_iechOut || iuid < 0 || iuid >= VF_NOUT) { T_bad++; return; }
   T_out[iuid] = value;
   T_outn[iuid]++;
 }
+#endif
 void Db::getSampleAsSPInPlace(SpacePoint& P) const { (void)P; }
 bool Model::isDriftSampleDefined(const Db* db, int ib, int nech, const VectorInt& nbgh, const ELoc& loctype) const
 {
@@ -136,6 +138,7 @@ double CovContext::getMean(int ivar) const
   if (ivar < 0 || ivar >= VF_NVAR) { T_bad++; return TEST; }
   return T_mean[ivar];
 }
+#ifndef VF_KS_OWN_COVCB // a harness that defines this macro supplies its own evalCovKriging / optimizationSetTarget (C04/block.cpp)
 void ACov::evalCovKriging(MatrixSquareGeneral& mat, SpacePoint& pwork1, SpacePoint& pout, const CovCalcMode* mode) const
 {
   (void)mode;
@@ -152,8 +155,11 @@ void ACov::evalCovKriging(MatrixSquareGeneral& mat, SpacePoint& pwork1, SpacePoi
   for (int iv = 0; iv < VF_NVAR; iv++)
     for (int jv = 0; jv < VF_NVAR; jv++) mat.setValue(iv, jv, T_cov[r1][r2][iv][jv], false);
 }
+#endif
 bool ACovAnisoList::isStationary() const { return T_stat; }
+#ifndef VF_KS_OWN_COVCB
 void ACov::optimizationSetTarget(const SpacePoint& pt) const { (void)pt; }
+#endif
 
 // virtual callbacks: the raw objects get a harness-built virtual table in which only the slots the
 // kernels reach are filled (slot number taken from the pointer-to-member value, Itanium C++ ABI)
